@@ -48,9 +48,9 @@ CLAIMED = {
  "C18": dict(cat="model_checking", technique="TLA+ history enumeration (SluApi: prefix;probe) + differential replay: probe after the prefix vs probe alone in a fresh process, bitwise comparison of everything returned",
              text="TLC enumerates (prefix, probe) histories over the alphabet of C08/C14/C06; the harness runs prefix+probe in one process and the probe alone in a fresh one (one thread, built-in kernels, user workspaces sized from the library's own estimate) and compares a hash of X, info, L/U values and subscripts, permutations, rcond, pivot growth, ferr, berr.",
              note="Same precision for prefix and probe (one precision per harness executable).", ref="3.6, 5 C18"),
- "C14": dict(cat="fault_enumeration", technique="fault enumeration derived from the TLA+ models (SluMem two-ended stack model checked by TLC; SluApi query/user-workspace obligations) executed against the real library under ASan/UBSan",
-             text="SluMem (TLC, all interleavings of worker start/finish) establishes the stack invariants and rejects the pre-repair release policy; every allocation request of five kinds of driver call is made to fail together with all later ones (every k in thorough), every workspace size class from 10 % to 200 % of the library's own estimate is tried with 1..4 threads, user mode is compared bitwise with internal mode, and query / user-workspace histories are validated against SluApiTrace (guard zones around the caller's buffer, factors inside it).",
-             note="Failure simulated at the allocation seam; diagnostic exits (USER_ABORT path or the library's exit(1) after its message) are accepted outcomes; F5 (workspace <= 20 % of the estimate) is a recorded finding.", ref="3.5, 5 C14"),
+ "C14": dict(cat="fault_enumeration", technique="fault enumeration derived from the TLA+ models (SluMem two-ended stack protocol checked by TLC; SluApi query/user-workspace obligations) executed against the real library under ASan/UBSan + trace validation of every critical section of the caller-workspace stack against SluStack (Stk* hooks)",
+             text="SluMem (TLC, all interleavings of worker start/finish) establishes the stack invariants and rejects the pre-repair release policy; every allocation request of five kinds of driver call is made to fail together with all later ones (every k in thorough), every workspace size class from 10 % to 200 % of the library's own estimate is tried with 1..4 threads, user mode is compared bitwise with internal mode, and query / user-workspace histories are validated against SluApiTrace (guard zones around the caller's buffer, factors inside it); every Stk* event (set-up, reuse, allocation from either end incl. the failing ones, release, registration of threads for the tail, alignment padding, compaction) of every such run is a step of SluStack with StackOK on every state.",
+             note="Failure simulated at the allocation seam; diagnostic exits (USER_ABORT path or the library's exit(1) after its message) are accepted outcomes; F5 (workspace <= 20 % of the estimate) was located by the SluStack validation and is repaired (d9d5c56).", ref="3.5, 5 C14"),
  "C11": dict(cat="model_checking", technique="TLA+ model on an exact sub-domain (SluEquil: entries 0 or 2^e, integer arithmetic on exponents) with exhaustive comparison by TLC against the real ?gsequ/?laqgs + SluApi driver rule on executed histories",
              text="On matrices with entries 0 or +-2^e every output of ?gsequ and ?laqgs (R, C, rowcnd, colcnd, amax, info, equed, the scaled matrix) is an integer function of the exponents, including clipping, thresholds, underflow and zero rows/columns; TLC compares the real routines exactly with that model on every 1x1 and 2x2 matrix over exponent sets spanning the range, random 3x3/4x4, four precisions; the expert-driver rule for A and B is asserted on every driver record.",
              note="Exact only on the power-of-two domain; overflow of c_j*r_i is excluded from the claim; general matrices via the driver-level clauses (few-ulp relation).", ref="3.7, 5 C11"),
